@@ -11,7 +11,8 @@ _LT = re.compile(r"<'\w+>|'\w+, |'\w+ |'\w+>")
 
 
 def norm(callee):
-    c = re.sub(r"<'\w+>", "", callee)
+    c = re.sub(r"::<'\w+>", "", callee)
+    c = re.sub(r"<'\w+>", "", c)
     c = re.sub(r"'\w+, ", "", c)
     c = re.sub(r"&'\w+ ", "&", c)
     return c
@@ -218,6 +219,46 @@ def _trait(selfty, trait, tname, method, c):
                 if method == "min": return a[0] if r != "Greater" else a[1]
                 return a[1] if r != "Greater" else a[0]
             return mm
+        if method == "clamp":
+            def cl(I, a, fr, d):
+                x, lo, hi = a
+                if val_cmp(I, lo, hi) == "Greater": raise Panic(f"assertion failed: min <= max (clamp) in {fr.fn.crate}::{fr.fn.name}")
+                if val_cmp(I, x, lo) == "Less": return lo
+                return hi if val_cmp(I, x, hi) == "Greater" else x
+            return cl
+    ARITH = {"Add": "add", "Sub": "sub", "Mul": "mul", "Div": "div", "Rem": "rem", "BitAnd": "bitand", "BitOr": "bitor", "BitXor": "bitxor",
+             "Shl": "shl", "Shr": "shr", "Neg": "neg", "Not": "not"}
+    ASSIGN = {k + "Assign": v + "_assign" for k, v in ARITH.items() if k not in ("Neg", "Not")}
+    if (tname in ARITH or tname in ASSIGN) and re.fullmatch(r"&?(?:mut )?(u8|u16|u32|u64|usize|u128|i8|i16|i32|i64|isize|i128|bool)", sp.strip()):
+        op = tname[:-6] if tname in ASSIGN else tname
+        def ar(I, a, fr, d):
+            x = deref(a[0]); y = deref(a[1]) if len(a) > 1 else None
+            where = f"{fr.fn.crate}::{fr.fn.name}"
+            if op == "Not": r = b_not(x) if not isinstance(x, Int) else (Int(x.ty, ~x.v) if x.concrete else mk_int(x.ty, ~x.v))
+            elif op == "Neg":
+                if I.E.branch(int_binop("Eq", x, Int(x.ty, 1 << (x.bits - 1))), "negmin"): raise Panic(f"attempt to negate with overflow in {where}")
+                r = Int(x.ty, -x.v) if x.concrete else mk_int(x.ty, -x.v)
+            elif not isinstance(x, Int):
+                r = {"BitAnd": b_and, "BitOr": b_or, "BitXor": lambda p, q: b_not(b_eq(p, q))}[op](x, y)
+            elif op in ("Add", "Sub", "Mul"):
+                r, o = int_overflow_op(op, x, y)
+                if I.E.branch(o, "ovf"): raise Panic(f"attempt to {dict(Add='add', Sub='subtract', Mul='multiply')[op]} with overflow in {where}")
+            elif op in ("Div", "Rem"):
+                if I.E.branch(int_binop("Eq", y, Int(y.ty, 0)), "divz"):
+                    raise Panic(f"attempt to {'divide' if op == 'Div' else 'calculate the remainder with a divisor of zero'} by zero in {where}")
+                if x.signed and I.E.branch(b_and(int_binop("Eq", x, Int(x.ty, 1 << (x.bits - 1))), int_binop("Eq", y, Int(y.ty, -1))), "minneg"):
+                    raise Panic(f"attempt to {'divide' if op == 'Div' else 'calculate the remainder'} with overflow in {where}")
+                r = int_binop(op, x, y)
+            elif op in ("Shl", "Shr"):
+                if I.E.branch(b_or(int_binop("Ge", y, Int(y.ty, x.bits)), int_binop("Lt", y, Int(y.ty, 0)) if y.signed else False), "shovf"):
+                    raise Panic(f"attempt to shift {'left' if op == 'Shl' else 'right'} with overflow in {where}")
+                r = int_binop(op, x, y)
+            else:
+                r = int_binop(op, x, y)
+            if tname in ASSIGN:
+                a[0].cell.v = r; return unit()
+            return r
+        return ar
     if tname == "Hash" and method == "hash": return lambda I, a, fr, d: unit()
     if tname == "Default" and method == "default": return lambda I, a, fr, d: default_of(I, parse_ty(selfty), fr)
     if tname == "TryFrom" and sp.endswith("RecoveryId"):
@@ -303,7 +344,7 @@ def _trait(selfty, trait, tname, method, c):
     if tname == "Digest": return colls.digest(method)
     if tname == "Verifier" and method == "verify": return colls.ed_verify
     if tname == "ToString" or (tname == "Display" and method == "to_string"):
-        return lambda I, a, fr, d: Opaque("String")
+        return lambda I, a, fr, d: (deref(a[0]) if isinstance(deref(a[0]), StrV) else Opaque("String"))
     return NotImplemented
 
 
@@ -410,6 +451,17 @@ def _inherent(head, last, plain, c):
         return colls.vec_method(last, c)
     if plain.startswith(("core::slice::", "std::slice::", "slice::")) or head == "slice":
         return colls.slice_method(last, c)
+    if plain in ("std::array::from_fn", "core::array::from_fn"):
+        def afn(I, a, fr, d):
+            m = re.search(r"from_fn::<[^,]+, (\d+)", c)
+            n = int(m.group(1)) if m else (d.args[1] if d is not None and d.kind == "array" else None)
+            if not isinstance(n, int): raise Unmodelled("array::from_fn of unknown length: " + c)
+            return Seq([Cell(I.call_value(a[0], [usize(i)])) for i in range(n)], "array")
+        return afn
+    if (head == "array" or plain.startswith(("std::array::", "core::array::"))) and last == "map":
+        def amap(I, a, fr, d):
+            return Seq([Cell(I.call_value(a[1], [cc.v])) for cc in deref(a[0]).cells], "array")
+        return amap
     if plain.startswith(("std::array::", "core::array::")):
         return colls.slice_method(last, c)
     if head in ("HashMap", "BTreeMap") or "hash_map::" in plain or "btree_map::" in plain:
@@ -423,6 +475,25 @@ def _inherent(head, last, plain, c):
             r = deref(a[0]); x = deref(a[1])
             return b_and(int_binop("Le", r.cells[0].v, x), int_binop("Lt", x, r.cells[1].v))
         return rc
+    if head == "RangeInclusive" or "ops::RangeInclusive::" in plain:
+        def rinc(I, a, fr, d):
+            if last == "new": return Agg("std::ops::RangeInclusive", [Cell(a[0]), Cell(a[1]), Cell(False)])
+            r = deref(a[0])
+            if last == "start": return Ref(r.cells[0])
+            if last == "end": return Ref(r.cells[1])
+            if last == "into_inner": return Agg(None, [Cell(r.cells[0].v), Cell(r.cells[1].v)])
+            if last == "is_empty": return b_not(int_binop("Le", r.cells[0].v, r.cells[1].v))
+            if last == "contains":
+                x = deref(a[1])
+                return b_and(int_binop("Le", r.cells[0].v, x), int_binop("Le", x, r.cells[1].v))
+            raise Unmodelled("RangeInclusive::" + last)
+        return rinc
+    if head in ("RangeFrom", "RangeTo", "RangeToInclusive") and last == "contains":
+        def rc2(I, a, fr, d):
+            r = deref(a[0]); x = deref(a[1])
+            if head == "RangeFrom": return int_binop("Le", r.cells[0].v, x)
+            return int_binop("Lt" if head == "RangeTo" else "Le", x, r.cells[0].v)
+        return rc2
     if (head == "Range" or "ops::Range::" in plain) and last in ("is_empty", "len"):
         def rie(I, a, fr, d):
             r = deref(a[0])
@@ -431,6 +502,12 @@ def _inherent(head, last, plain, c):
             if I.E.branch(int_binop("Lt", lo, hi), "range_len"): return int_binop("Sub", hi, lo)
             return Int(lo.ty, 0)
         return rie
+    if plain in ("std::mem::drop", "core::mem::drop", "drop") and "::" in plain or plain == "drop":
+        def dr(I, a, fr, d):
+            I.drop(a[0]); return unit()
+        return dr
+    if plain in ("std::mem::forget", "core::mem::forget"):
+        return lambda I, a, fr, d: unit()
     if plain in ("std::mem::take", "core::mem::take"):
         def take(I, a, fr, d):
             cell = a[0].cell
@@ -477,7 +554,11 @@ def _inherent(head, last, plain, c):
             if last == "then_with": return I.call_value(a[1], []) if o == "Equal" else a[0]
             raise Unmodelled("Ordering::" + last)
         return ordm
-    if plain in ("std::iter::repeat", "core::iter::repeat", "std::iter::repeat_n", "core::iter::repeat_n", "std::iter::repeat_with", "core::iter::repeat_with"):
+    if plain in ("std::hint::must_use", "core::hint::must_use", "must_use", "std::hint::black_box", "core::hint::black_box", "black_box",
+                 "std::convert::identity", "core::convert::identity", "identity"):
+        return lambda I, a, fr, d: a[0]
+    if plain in ("std::iter::repeat", "core::iter::repeat", "std::iter::repeat_n", "core::iter::repeat_n", "std::iter::repeat_with", "core::iter::repeat_with",
+                 "repeat", "repeat_n", "repeat_with"):
         def rep(I, a, fr, d):
             if plain.endswith("repeat_n"):
                 n = a[1].v if a[1].concrete else I.E.concretize(a[1], cap=4200, label="repeat_n")
